@@ -34,6 +34,7 @@ pub mod timing;
 
 pub mod checks;
 pub mod cpustep;
+pub mod jitstep;
 pub mod refm;
 pub mod util;
 pub mod world;
@@ -45,6 +46,14 @@ fn usage() -> ! {
 
 fn main() {
   std::env::set_var("RUST_BACKTRACE", "0");
+  // Transparent huge pages make every mprotect/first-touch cycle of the 8 MiB code cache
+  // (two per translation) cost milliseconds of kernel time; the subject's behaviour does
+  // not depend on the page size, so switch THP off for this process and its children.
+  if std::env::var("GBMC_KEEP_THP").is_err() {
+    unsafe {
+      libc::prctl(41 /* PR_SET_THP_DISABLE */, 1, 0, 0, 0);
+    }
+  }
   let args: Vec<String> = std::env::args().collect();
   if args.len() < 2 {
     usage();
@@ -57,6 +66,36 @@ fn main() {
         std::process::exit(2);
       },
     }
+    return;
+  }
+  if args[1] == "bench-eval" {
+    let mut jw = jitstep::JitWorld::new();
+    let mut c = refm::r1::Cpu { pc: 0x150, sp: 0xDFF0, ..Default::default() };
+    jw.plant_bytes(0x150, &[0x80, 0xC3, 0x13, 0x02]);
+    let t = std::time::Instant::now();
+    let n = 2_000_000u32;
+    for i in 0..n {
+      c.a = i as u8;
+      c.b = (i >> 8) as u8;
+      let oi = jw.run_interp_block(&c);
+      jw.restore(&oi);
+      let o = jw.run_jit_block(&c, 2);
+      jw.restore(&o);
+    }
+    println!("{} evals in {:?}", n, t.elapsed());
+    return;
+  }
+  if args[1] == "bench-translate" {
+    let mut jw = jitstep::JitWorld::new();
+    let c = refm::r1::Cpu { pc: 0x150, sp: 0xDFF0, ..Default::default() };
+    let t = std::time::Instant::now();
+    let n = 20000;
+    for i in 0..n {
+      jw.plant_bytes(0x150, &[0x3E, i as u8, 0xC3, 0x13, 0x02]);
+      let o = jw.run_jit_block(&c, 2);
+      jw.restore(&o);
+    }
+    println!("{} translations+calls in {:?}", n, t.elapsed());
     return;
   }
   if args.len() < 3 {
